@@ -850,6 +850,8 @@ fn main() {
                     h.full = w[1] == "full";
                     "ok".to_string()
                 }
+                // driver-side switches (well-formedness check, coverage output): nothing to do here
+                "wf" | "cov" if w.len() == 2 && (w[1] == "0" || w[1] == "1") => "ok".to_string(),
                 "verify" if w.len() == 2 && dec(w[1]).is_some() => {
                     h.verify_every = dec(w[1]).unwrap() as usize;
                     "ok".to_string()
